@@ -180,6 +180,7 @@ def check(case, mon, ctx):
         mon.violation('save-load-raises', {'exception': repr(e)[:300]})
         return
     by_id = {l.id: l for l in b.lines_iterator()}
+    mon.observe('loaded windows and tables', [(l.id, l.logit_coords, l.characters, None if l.logits is None or isinstance(l.logits, str) else [int(x) for x in l.logits.shape]) for l in b.lines_iterator()])
     for la in lines_a:
         if la.id in drop:
             continue
